@@ -85,7 +85,15 @@ Qed.
 Lemma step_expect k s : step s (expect k s).
 Proof. unfold expect. destruct (cur_is s k); [apply step_bump|apply step_error]. Qed.
 
-Opaque bump skip_ws error expect in_node out_of_fuel.
+Lemma step_version_text s : step s (version_text s).
+Proof.
+  unfold version_text. destruct (cur_is s IDENT); [|apply step_error].
+  destruct (cur_is (bump s) COLON).
+  - eapply step_trans; [apply step_bump|]. eapply step_trans; [apply step_bump|apply step_expect].
+  - apply step_bump.
+Qed.
+
+Opaque bump skip_ws error expect in_node out_of_fuel version_text.
 
 Ltac stp :=
   repeat match goal with
@@ -97,6 +105,7 @@ Ltac stp :=
   | |- step ?s (skip_ws ?t) => apply (step_trans s t); [|apply step_skip_ws]
   | |- step ?s (error ?t) => apply (step_trans s t); [|apply step_error]
   | |- step ?s (expect ?k ?t) => apply (step_trans s t); [|apply step_expect]
+  | |- step ?s (version_text ?t) => apply (step_trans s t); [|apply step_version_text]
   | |- step ?s (out_of_fuel ?t) => apply (step_trans s t); [|apply step_out_of_fuel]
   end.
 
@@ -167,7 +176,7 @@ Proof.
   match goal with |- step _ (if peek_is ?t _ then _ else _) => apply (step_trans s t) end.
   2:{ match goal with |- step ?t (if ?b then _ else _) => destruct b end; [|stp].
       eapply step_trans; [apply step_skip_ws|]. apply pres_in_node. intros u. cbv zeta.
-      match goal with |- step _ (expect _ (expect _ (skip_ws (constraint_node ?v)))) =>
+      match goal with |- step _ (expect _ (skip_ws (version_text (skip_ws (constraint_node ?v))))) =>
         apply (step_trans u (constraint_node v)); [|stp] end.
       eapply step_trans; [|apply pres_constraint_node]. stp. }
   (* archqual *)
@@ -208,7 +217,7 @@ Proof.
 Qed.
 
 (* ======================= totality: no panic, fuel suffices ======================= *)
-Transparent bump skip_ws error expect in_node out_of_fuel.
+Transparent bump skip_ws error expect in_node out_of_fuel version_text.
 
 Definition ltoks (s : pst) : nat := length (toks s).
 
@@ -265,6 +274,16 @@ Proof. apply step_expect. Qed.
 Lemma ltoks_expect_lt k s : current s <> None -> ltoks (expect k s) < ltoks s.
 Proof. intros H. unfold expect. destruct (cur_is s k); [apply ltoks_bump|apply ltoks_error_lt]; exact H. Qed.
 
+Lemma flag_version_text s : flag (version_text s) = flag s.
+Proof.
+  unfold version_text. destruct (cur_is s IDENT) eqn:E; [|apply flag_error].
+  pose proof (flag_bump s (cur_is_some _ _ E)) as F1.
+  destruct (cur_is (bump s) COLON) eqn:E2; [|exact F1].
+  rewrite flag_expect, flag_bump; [exact F1|eapply cur_is_some; exact E2].
+Qed.
+Lemma ltoks_version_text s : ltoks (version_text s) <= ltoks s.
+Proof. apply step_version_text. Qed.
+
 Lemma peek_skip_ws_l ts : peek_past_ws_l ts = match snd (skip_ws_l ts) with [] => None | (k, _) :: _ => Some k end.
 Proof.
   induction ts as [|[k s] t IH]; cbn [peek_past_ws_l skip_ws_l]; [reflexivity|].
@@ -280,7 +299,7 @@ Qed.
 Lemma peek_is_current s k : peek_is s k = true -> current (skip_ws s) <> None.
 Proof. unfold peek_is. rewrite current_skip_ws. destruct (peek_past_ws s); congruence. Qed.
 
-Opaque bump skip_ws error expect in_node out_of_fuel.
+Opaque bump skip_ws error expect in_node out_of_fuel version_text.
 
 Definition ok (s : pst) : Prop := flag s = 0%N.
 
@@ -351,6 +370,9 @@ Lemma good_in_node k body s : good (reset s) (body (reset s)) -> good s (in_node
 Proof. intros [O L]. split; [unfold ok; rewrite flag_in_node; exact O|rewrite ltoks_in_node; exact L]. Qed.
 Lemma goodlt_in_node k body s : goodlt (reset s) (body (reset s)) -> goodlt s (in_node k body s).
 Proof. intros [O L]. split; [unfold ok; rewrite flag_in_node; exact O|rewrite ltoks_in_node; exact L]. Qed.
+
+Lemma good_version_text s : ok s -> good s (version_text s).
+Proof. intros H. split; [unfold ok; rewrite flag_version_text; exact H|apply ltoks_version_text]. Qed.
 
 Lemma good_arch_loop fuel : forall s, ok s -> ltoks s < fuel -> good s (arch_loop fuel s).
 Proof.
@@ -435,7 +457,8 @@ Definition rel_version (st : pst) : pst :=
       let st := skip_ws st in
       let st := constraint_node st in
       let st := skip_ws st in
-      let st := expect IDENT st in
+      let st := version_text st in
+      let st := skip_ws st in
       expect R_PARENS st) st
   else st.
 Definition rel_archs (st : pst) : pst :=
@@ -477,8 +500,9 @@ Proof.
   pose proof (good_skip_ws _ Ob) as [O2 L2].
   pose proof (good_constraint_node _ O2) as [O3 L3].
   pose proof (good_skip_ws _ O3) as [O4 L4].
-  pose proof (good_expect IDENT _ O4) as [O5 L5].
-  pose proof (good_expect R_PARENS _ O5) as [O6 L6].
+  pose proof (good_version_text _ O4) as [O5 L5].
+  pose proof (good_skip_ws _ O5) as [O5' L5'].
+  pose proof (good_expect R_PARENS _ O5') as [O6 L6].
   split; [exact O6|lia].
 Qed.
 
